@@ -83,7 +83,7 @@ CHECKS["C13"] = {
     "thorough": {"n": 1600000, "shards": 16},
     "level_text": "randomised search (rapid) over TLSA record multisets x presented chains x handshake state x lookup outcome against an answer known by "
                   "construction of the harness's own PKI; the thorough tier also enumerates every multiset of at most two records against every chain. Two further units cover 'the records published for an MX': discoverTLSA against a loopback DNS server "
-                  "that answers like a validating resolver, over alias chains of 0-3 CNAMEs with per-RRset AD flags and TLSA states (none / secure / without AD / SERVFAIL) at the MX name and at the expanded name "
+                  "that answers like a validating resolver, over alias chains of 0-3 CNAMEs with per-RRset AD flags and TLSA states (none / secure / without AD / SERVFAIL) at the MX name and at the expanded name, and host names too long to have a TLSA owner name "
                   "(oracle: records of an insecurely reached name or unauthenticated records are never used, securely published ones and lookup failures are never ignored), and AuthLookupTLSA against answers that do not fit into a UDP reply.",
     "level_note": "the oracle never calls x509.Verify or TLSA.Verify; it trusts crypto/x509 only for creating the certificates. "
                   "'Exhaustive' in the thorough tier is partial: with TLS absent only a few second records are tried because the expected answer cannot depend on them",
@@ -413,8 +413,8 @@ CHECKS["C05"] = {
     "quick": {"n": 6400, "shards": 16},
     "thorough": {"n": 256000, "shards": 16},
     "level_text": "randomised search (rapid) over policy sets, per-MX facts, message flags and histories of messages sharing the connection cache, run through the real remote target, "
-                  "policy modules and ExtResolver against scripted TLS/plain MX servers and a mock DNS server on loopback; oracle = safety predicate over what the servers received.",
-    "level_note": "only safety is asserted (what must not be transmitted); the MTA-STS fetcher is stubbed; TLSA usages other than DANE-EE are covered by C13",
+                  "policy modules and ExtResolver against scripted TLS/plain MX servers and a mock DNS server on loopback; oracle = safety predicate over what the servers received. A second unit builds mx_auth blocks from generated policy lists (short and full module names) and requires every configured policy to be in force.",
+    "level_note": "only safety is asserted (what must not be transmitted); the MTA-STS fetcher is stubbed (policy, no policy, or - as go-mtasts does when it cannot store a fresh policy - neither policy nor error); TLSA usages other than DANE-EE are covered by C13",
     "technique": "property-based testing (rapid) with a by-construction safety predicate over observed transmissions",
 }
 
